@@ -387,6 +387,28 @@ func runRT(c rtCase) pbt.Result {
 	if !bytes.Equal(b3, snap) {
 		return merge(res, pbt.Failf("the re-encoding of the decoded metadata changed when another metadata was encoded afterwards"))
 	}
+	// the same holds one level down: the encodings of the single protocols, taken one after the other and held
+	// while the others are taken and while a metadata is decoded, stay what they were
+	prs := protosIn(c.Protos)
+	var held, copies [][]byte
+	for _, pr := range prs {
+		e, err := pr.MarshalBinary()
+		if err != nil {
+			return merge(res, pbt.Failf("MarshalBinary of protocol %v: %v", pr.ID(), err))
+		}
+		held, copies = append(held, e), append(copies, append([]byte(nil), e...))
+	}
+	again := metadata.Default.New()
+	_ = again.UnmarshalBinary(snap)
+	for i := range held {
+		if !bytes.Equal(held[i], copies[i]) {
+			return merge(res, pbt.Failf("the encoding of protocol %d (%v) of %+v changed from %x to %x while other protocols were encoded or a metadata was decoded: encodings share memory", i, prs[i].ID(), c.Protos, copies[i], held[i]))
+		}
+	}
+	// two metadata that differ in one protocol are not equal
+	if md.Equal(smd) || smd.Equal(md) {
+		return merge(res, pbt.Failf("Metadata.Equal reports %+v and %+v as equal", c.Protos, sib))
+	}
 	return res
 }
 
@@ -406,7 +428,7 @@ func merge(base, f pbt.Result) pbt.Result {
 
 func TestC11_RoundTrip(t *testing.T) {
 	pbt.Run(t, pbt.Config{Prop: "C11", Unit: "TestC11_RoundTrip",
-		Rule: "multisets of 1..6 protocols (bitswap, gateway, graphsync-filecoin with drawn piece CID and flags, unknown codes 0..2^62 with payloads 0..900 B, one case in ten with payloads near 700 / 1000 / 1023 B so that the encoding reaches several KiB, repeated IDs) in two drawn construction orders; oracle: MarshalBinary = concatenation of independently specified protocol encodings in ascending ID order (equal IDs in any order), decode is Equal, every ID retrievable, decode->encode identity; a context derived with WithProtocol for one of the unknown codes does not change what the default context does; a returned encoding does not change when a sibling metadata (one protocol altered) is encoded afterwards. Non-trivial: >=3 protocols, or a protocol after the CBOR-encoded one, or an unknown payload >127 B; distinct by case.",
+		Rule: "multisets of 1..6 protocols (bitswap, gateway, graphsync-filecoin with drawn piece CID and flags, unknown codes 0..2^62 with payloads 0..900 B, one case in ten with payloads near 700 / 1000 / 1023 B so that the encoding reaches several KiB, repeated IDs) in two drawn construction orders; oracle: MarshalBinary = concatenation of independently specified protocol encodings in ascending ID order (equal IDs in any order), decode is Equal, every ID retrievable, decode->encode identity; a context derived with WithProtocol for one of the unknown codes does not change what the default context does; a returned encoding does not change when a sibling metadata (one protocol altered) is encoded afterwards, nor do the encodings of the single protocols while the others are encoded and a metadata is decoded; the sibling is not Equal. Non-trivial: >=3 protocols, or a protocol after the CBOR-encoded one, or an unknown payload >127 B; distinct by case.",
 	}, genRT, runRT)
 }
 
